@@ -268,8 +268,28 @@ func (c05) Exec(p *Plan, dir string) *Result {
 			taskN++
 			nrid := uint32(0x0d000000 + taskN)
 			call := w.Send(world.AgentReq{Port: ag.d.Port, URI: ag.d.URI, Headers: ag.d.Hdrs, Peer: ag.d.Peer, Body: ag.d.Frame([]world.Pkg{{Cmd: world.CmdSleep, RID: rid, Body: pb.B}})})
-			w.Sim.RunSteps(uint64(w.Sim.SchedRand().Intn(150)))
-			wit.Task(ag.d.NameID(), fmt.Sprintf("%08x", nrid), world.CmdSleep, "sleep", map[string]any{"Arguments": "5;1"})
+			placed := false
+			if a.D%2 == 1 {
+				// fault "stalled goroutine", placed: the handler of the callback gets no CPU between
+				// reading the list of outstanding ids and writing it back (if it gets that far: the
+				// retire is in front of its lock first), the operator's task is issued meanwhile
+				if w.Sim.RunToSite("b:(*Agent).RequestCompleted", 1, 4000) {
+					h := w.Sim.SiteTask
+					if w.Sim.RunToSite("#rmw", 1, 400) && w.Sim.SiteTask == h {
+						stalled := w.Sim.Stall(h)
+						wit.Task(ag.d.NameID(), fmt.Sprintf("%08x", nrid), world.CmdSleep, "sleep", map[string]any{"Arguments": "5;1"})
+						w.Sim.Run(nil, false)
+						w.Sim.Release(stalled)
+						placed = true
+						res.Probe("fault:stalled-goroutine")
+						res.Probe("issue-while-a-retire-is-between-read-and-write")
+					}
+				}
+			}
+			if !placed {
+				w.Sim.RunSteps(uint64(w.Sim.SchedRand().Intn(150)))
+				wit.Task(ag.d.NameID(), fmt.Sprintf("%08x", nrid), world.CmdSleep, "sleep", map[string]any{"Arguments": "5;1"})
+			}
 			w.Sim.Settle()
 			w.Absorb(ag.d, call)
 			for ; ag.seen < len(ag.d.Tasks); ag.seen++ {
@@ -279,7 +299,46 @@ func (c05) Exec(p *Plan, dir string) *Result {
 			ag.completed[rid] = true
 			wit.Pump()
 			res.Probe("issue-racing-retire")
-			res.FP("race")
+			res.FP("race", placed)
+			if placed {
+				// the retired id is retired, the issued one is outstanding: the agent fetches the new
+				// task and answers it - the answer is acted upon; a replay of the retired one is not
+				effects := func(r uint32, delay int) []string {
+					var fb world.PB
+					fb.Int32(uint32(delay)).Int32(1)
+					before := TakeSnap(w, SnapOpts{Witness: wit})
+					mark := len(wit.Events)
+					w.Absorb(ag.d, w.Do(world.AgentReq{Port: ag.d.Port, URI: ag.d.URI, Headers: ag.d.Hdrs, Peer: ag.d.Peer, Body: ag.d.Frame([]world.Pkg{{Cmd: world.CmdSleep, RID: r, Body: fb.B}})}))
+					wit.Pump()
+					if os.Getenv("VERIF_DEBUG") != "" {
+						for _, e := range wit.Events[mark:] {
+							fmt.Fprintf(os.Stderr, "C05 race effects(%x): event %s\n", r, short(fmt.Sprint(e), 300))
+						}
+					}
+					var eff []string
+					for _, k := range before.Diff(TakeSnap(w, SnapOpts{Witness: wit})) {
+						if !strings.HasSuffix(k, ".queue") {
+							eff = append(eff, k)
+						}
+					}
+					return eff
+				}
+				// (the agent fetches the new task first: handing it out is reported on the console)
+				checkin(ag)
+				if eff := effects(rid, 811); len(eff) > 0 {
+					res.Violate("C05", "effect-without-outstanding-task", "completed-id-after-issue-racing-retire:"+effectClass(eff),
+						fmt.Sprintf("agent %s: an operator issued request %x while the final callback of request %x was being processed; afterwards a replay of %x changed: %s", ag.d.NameID(), nrid, rid, rid, strings.Join(eff, " ")), w.Sim)
+					break
+				}
+				if ag.handed[nrid] {
+					if eff := effects(nrid, 812); len(eff) == 0 {
+						res.Violate("C05", "outstanding-task-forgotten", "after-issue-racing-retire",
+							fmt.Sprintf("agent %s: an operator issued request %x while the final callback of request %x was being processed; the agent fetched the new task, its answer was dropped", ag.d.NameID(), nrid, rid), w.Sim)
+						break
+					}
+					ag.completed[nrid] = true
+				}
+			}
 		case "svctask":
 			if svc == nil || ag.parent != nil {
 				continue
